@@ -7,6 +7,7 @@ opts (all optional):
   fault: [step, phase] -> the observer raises InjectedFault there; plain: build with library classes;
   presim: number of earlier simulate() calls on the same object before the observed one;
   resume_from: k -> simulate(max_time=k) first, the observed run resumes it (state/log initialisation off, or restart_flags=(state, log));
+  build_from + edit: objects built from spec `build_from`, run `presim` times, then edited in place (mc/edits.py) into `spec`;
   post_insert: list -> insert_absence_time_list(list) after the run; reload: write/read JSON after the run and look at the loaded project;
   unit_time: passed to simulate(); backward: observe backward_simulate() instead (options due, rev).
 """
@@ -57,7 +58,8 @@ class Exec(object):
 
 
 def prepare(spec, opts):
-    m = S.build(spec, plain=bool(opts.get("plain")))
+    # build_from: the objects are built from an earlier version of the model and edited later (opts["edit"]) into `spec`
+    m = S.build(opts.get("build_from") or spec, plain=bool(opts.get("plain")))
     for name, lst in (opts.get("res_absence") or {}).items():
         if name in m.byname:
             m.byname[name].absence_time_list = list(lst)
@@ -129,6 +131,10 @@ def run(spec, opts=None, model=None, call=None):
         for _ in range(int(opts.get("presim") or 0)):
             # earlier, unobserved runs on the same object (the observed run must not be influenced by them)
             ex.m.project.simulate(**sim_kwargs(dict(opts, absence=opts.get("presim_absence", []))))
+        if opts.get("edit"):
+            from . import edits
+
+            edits.apply_edit(ex.m, opts["edit"])
     except Exception as e:
         ex.error = "presim: %s: %s" % (type(e).__name__, e)
         return ex
